@@ -1,0 +1,71 @@
+//! Verification hooks, compiled only with `--cfg fidget_verif`
+//!
+//! A process-wide event sink and a schedule-point callback can be installed
+//! by a test harness; when nothing is installed every hook is a cheap no-op.
+//! Events carry a per-thread sequence number (never wall-clock time).
+use std::cell::Cell;
+use std::sync::{
+    Arc, RwLock,
+    atomic::{AtomicU64, Ordering},
+};
+
+/// A recorded event: name, per-thread sequence number and integer fields
+#[derive(Clone, Debug)]
+pub struct Event {
+    /// Small dense id of the emitting thread
+    pub thread: u64,
+    /// Per-thread sequence number
+    pub seq: u64,
+    /// Event name
+    pub name: &'static str,
+    /// Integer payload
+    pub fields: Vec<(&'static str, i64)>,
+}
+
+type Sink = Arc<dyn Fn(Event) + Send + Sync>;
+type Sched = Arc<dyn Fn(&'static str, u64) + Send + Sync>;
+
+static SINK: RwLock<Option<Sink>> = RwLock::new(None);
+static SCHED: RwLock<Option<Sched>> = RwLock::new(None);
+static NEXT_THREAD: AtomicU64 = AtomicU64::new(0);
+
+thread_local! {
+    static THREAD: u64 = NEXT_THREAD.fetch_add(1, Ordering::Relaxed);
+    static SEQ: Cell<u64> = const { Cell::new(0) };
+}
+
+/// Installs (or removes) the event sink
+pub fn set_sink(s: Option<Sink>) {
+    *SINK.write().unwrap() = s;
+}
+
+/// Installs (or removes) the schedule-point callback, which may block
+pub fn set_schedule_callback(s: Option<Sched>) {
+    *SCHED.write().unwrap() = s;
+}
+
+/// Emits an event if a sink is installed
+pub fn emit(name: &'static str, fields: &[(&'static str, i64)]) {
+    let sink = SINK.read().unwrap().clone();
+    if let Some(sink) = sink {
+        let seq = SEQ.with(|s| {
+            let v = s.get();
+            s.set(v + 1);
+            v
+        });
+        sink(Event {
+            thread: THREAD.with(|t| *t),
+            seq,
+            name,
+            fields: fields.to_vec(),
+        });
+    }
+}
+
+/// Calls the schedule-point callback, if any (the callback may block)
+pub fn schedule_point(name: &'static str, id: u64) {
+    let cb = SCHED.read().unwrap().clone();
+    if let Some(cb) = cb {
+        cb(name, id);
+    }
+}
